@@ -142,9 +142,10 @@ func IsTerminal(tok Token) bool {
 // whether the operator has more precedence or not.
 func HasLessPrecedence(current Token, next Token) bool {
 	// left associative. If we see another of the same type don't add onto the pile.
-	// right associative would return true here.
+	// right associative would return true here, which is what the prefix operators need
+	// since there is nothing to reduce yet when one directly follows another (e.g. NOT NOT a).
 	if current.Typ == next.Typ {
-		return false
+		return current.Typ == TNot || current.Typ == TPlus || current.Typ == TMinus
 	}
 
 	// lower numbers mean higher precedence
